@@ -105,6 +105,7 @@ fn shape_name(s: &Shape) -> String {
         Shape::Merge(n) => format!("merge({n})"),
         Shape::Packets(k) => format!("packets({k})"),
         Shape::PacketsTail(k, t) => format!("packets({k},tail={t})"),
+        Shape::ToFile => "tofile".into(),
         Shape::VecPackets(v) => format!("vecpackets{v:?}").replace(' ', ""),
     }
 }
